@@ -388,6 +388,9 @@ impl<'a> Interpreter<'a> {
                             CelValue::Dyn(d) => {
                                 stack.push_val(d.access(ident.as_str()));
                             }
+                            // a failed object stays the failure it is: `(1 / 0).b`
+                            // is a division by zero, not an absent field
+                            CelValue::Err(_) => stack.push_val(obj),
                             _ => {
                                 if let Some(bindings) = self.bindings {
                                     if bindings.get_func(ident.as_str()).is_some()
@@ -478,6 +481,8 @@ impl<'a> Interpreter<'a> {
                                     let arg_values = self.resolve_args(args)?;
                                     stack.push_val(construct_type(&type_name, arg_values));
                                 }
+                                // calling a failed value is that failure
+                                CelValue::Err(err) => stack.push_val(CelValue::Err(err)),
                                 other => stack.push_val(
                                     CelValue::from_err(CelError::runtime(&format!(
                                         "{:?} cannot be called",
